@@ -212,6 +212,13 @@ pub fn generate(rng: &mut Rng, job: &Job, min_snaps: usize) -> Scenario {
             bounds.push(b);
         }
     }
+    // one scenario in eight: 66 extra bounds below every observed value, so that all observations fall into
+    // buckets with an index above 64 (size thresholds of bucket bookkeeping)
+    if rng.chance(1, 8) {
+        let mut padded: Vec<f64> = (1..=66).map(|i| i as f64 / 128.0).collect();
+        padded.extend(bounds.into_iter().filter(|b| *b > 0.75));
+        bounds = padded;
+    }
     Scenario { in_vec, bounds, threads }
 }
 
